@@ -404,7 +404,8 @@ pub fn check_convert(m: &mut Monitor, report: &Report, blob: &[u8]) {
             let mut sig = blob.to_vec();
             sig.push(0xC0);
             crate::util::nontrivial_capped(m, &sig);
-            if m.wants_sample() {
+            if m.wants_sample() && m.counter("sampled_conversions") < 2 {
+                m.count("sampled_conversions");
                 m.sample(json!({"kind": "conversion", "report": format!("{report:?}"), "price_feed_price": format!("{fp:?}")}));
             }
         }
@@ -483,7 +484,17 @@ pub fn check_full(m: &mut Monitor, payload: &[u8], origin: &str) -> Option<(usiz
                 Abi::OutOfRange { offset_fits_u64, length_fits_u64 } => {
                     // The ABI words (256-bit) do not describe a slice of this payload, yet a blob was
                     // returned. Classify by which word's upper bytes were disregarded.
-                    let sig = if !offset_fits_u64 {
+                    // Residual bound for these classes: the blob must at least be the slice described
+                    // by the low 64 bits of the two words; anything else is a different deviation.
+                    let off64 = u64::from_be_bytes(payload[120..128].try_into().unwrap()) as u128;
+                    let low_ok = off64 + 32 <= payload.len() as u128 && {
+                        let o = off64 as usize;
+                        let len64 = u64::from_be_bytes(payload[o + 24..o + 32].try_into().unwrap()) as u128;
+                        start as u128 == off64 + 32 && len as u128 == len64
+                    };
+                    let sig = if !low_ok {
+                        "C28:decode_full_report:blob_is_not_the_abi_slice"
+                    } else if !offset_fits_u64 {
                         "C28:decode_full_report:offset_high_bytes_ignored"
                     } else if length_fits_u64 == Some(false) {
                         "C28:decode_full_report:length_high_bytes_ignored"
@@ -594,7 +605,8 @@ pub fn check_compressed(m: &mut Monitor, compressed: &[u8], origin: &str, big_ok
             let mut sig = compressed.to_vec();
             sig.push(0x5A);
             crate::util::nontrivial_capped(m, &sig);
-            if m.wants_sample() && origin.starts_with("built") {
+            if m.wants_sample() && origin.starts_with("built") && m.counter("sampled_compressed") < 2 {
+                m.count("sampled_compressed");
                 m.sample(json!({"kind": "compressed full report", "compressed_len": compressed.len(), "payload_len": payload.len(), "blob": format!("{start}..{end}"), "report": format!("{report:?}")}));
             }
         }
